@@ -774,3 +774,117 @@ def r16_elementary_updates_are_products(ck, P):
                     ck.violation(R, fn, 'direct store into %s' % pn, '%s writes an entry of the caller\'s %s matrix directly at %s, on a path that establishes only %s of the bottom row (0, 0, 1): for a matrix with matrix[2][2] != 1 (an affine matrix scaled as a whole is still affine) the product with the elementary matrix differs from the value stored, and its overflow is not the overflow tested' % (fn, pn, x.loc(), sorted(have) or 'nothing'), x.loc())
     if n < 6:
         raise AnalysisBroken('C11-R16: only %d updates of caller matrices found in scale / rotate / translate' % n)
+
+
+def r17_zero_divisor_always_reported(ck, P, rid='C11-R17'):
+    """Must-pass-through inside a branch: a homogeneous coordinate of exactly 0 has no quotient, whatever the numerators are (0 / 0
+    included).  On the branch that pixman_transform_point_31_16 takes for a zero divisor, the overflow flag is set on every path -
+    not only on the paths where a numerator happens to be positive or negative."""
+    R = ck.rule(rid, 'in the projective point transform, every path from the entry of the branch guarded by "integer and fractional part of the divisor are 0" to the read of the overflow flag (or the return) passes a store of TRUE into that flag made in the function itself: a flag that is set only where a numerator is positive or negative lets 0 / 0 - and numerators below half a unit - through as the point (0, 0, 1) with TRUE', floor=1)
+    n = 0
+    for f in P.functions():
+        flag = [x for x in f.insts() if x.op == 'alloca' and x.dv == 'clampflag']
+        if not flag:
+            continue
+        A = flag[0]
+        zero_tests = []
+        for b in f.blocks:
+            t = b.term
+            if t.op != 'br' or not t.a:
+                continue
+            c, p, ops = f.cond(t.a[0])
+            if c is None or c.op != 'icmp' or p not in ('eq', 'ne') or len(ops) != 2 or not any(o[0] == 'c' and int(o[1]) == 0 for o in ops):
+                continue
+            def named(o):
+                for _ in range(4):
+                    q = f.v(o) if o[0] == 'v' else None
+                    if q is None:
+                        return None
+                    if q.dv in ('divint', 'divfrac'):
+                        return q
+                    if q.op in ('zext', 'sext', 'trunc') :
+                        o = q.a[0]; continue
+                    return None
+                return None
+            y = [named(o) for o in ops if o[0] == 'v']
+            if y and y[0] is not None:
+                zero_tests.append((t, t.d['succ'][0] if p == 'eq' else t.d['succ'][1], y[0].dv))
+        if not zero_tests:
+            continue
+        # the block entered when both parts are zero: target of a zero edge that is itself guarded by the zero edge of the other part
+        Z = None
+        for t, s, nm in zero_tests:
+            ge = f.guard_edges(s)
+            if any((t2, s2) in ge for t2, s2, nm2 in zero_tests if nm2 != nm):
+                Z = s
+        if Z is None:
+            continue
+        n += 1; ck.saw(f)
+        def sets_flag(q):
+            return q.op == 'store' and f.root(f.path(q.a[1])) == ('alloca', A.i) and q.a[0][0] == 'c' and int(q.a[0][1]) != 0
+        def reads_flag(q):
+            return q.op == 'ret' or (q.op == 'load' and f.root(f.path(q.a[0])) == ('alloca', A.i))
+        first = f.blocks[Z].insts[0]
+        hit = first if reads_flag(first) else None
+        if hit is None and not sets_flag(first):
+            hit = f.reach_avoiding(first, sets_flag, reads_flag)
+        where = '%s: zero-divisor branch at %s' % (f.name, first.loc())
+        if hit is None:
+            ck.ok(R, where, 'flag set on every path')
+        else:
+            ck.violation(R, f.name, 'zero divisor not always reported', '%s has a path through its zero-divisor branch (entered at %s) that reaches the read of the overflow flag at %s without a store of TRUE made in the function: when the numerators round to 0 as well, the call returns TRUE with a point, although no quotient by a zero homogeneous coordinate exists' % (f.name, first.loc(), hit.loc()), hit.loc())
+    if n == 0:
+        raise AnalysisBroken('%s: the zero-divisor branch of the projective point transform was not found' % rid)
+
+
+def r18_division_digit_shortcuts_are_strict(ck, P, rid='C11-R18'):
+    """Schoolbook long division, digit by digit: digit = dividend / divisor, remainder = dividend % divisor.  A step may be skipped
+    (digit 0, remainder = dividend) exactly when dividend < divisor.  With dividend == divisor the digit is 1: a non-strict test loses it,
+    and the quotient is returned modulo 2^64 without the overflow flag."""
+    R = ck.rule(rid, 'for every digit step of the 128-bit divisions in pixman-matrix.c (a remainder X % D next to the quotient X / D): where the remainder is merged with the undivided X itself (a shortcut that skips the division), the edge that delivers X is guarded by the strict comparison X < D; with X <= D the case X == D stores digit 0 instead of 1 and pixman_transform_point returns TRUE with a wrapped quotient where it must report overflow', floor=3)
+    u = P.units.get('pixman-matrix.c')
+    if u is None:
+        raise AnalysisBroken('%s: pixman-matrix.c not compiled' % rid)
+    n = 0
+    for fn, f in sorted(u.functions.items()):
+        for x in f.insts():
+            if x.op != 'urem' or x.ty != 'i64':
+                continue
+            X, D = x.a
+            if not any(q.op == 'udiv' and q.a == x.a for q in f.insts()):
+                continue
+            n += 1; ck.saw(f)
+            where = '%s: digit step at %s' % (fn, x.loc())
+            bad = None; short = False
+            for ph in f.users(x):
+                if ph.op != 'phi':
+                    continue
+                for a, bb in zip(ph.a, ph.d['bb']):
+                    if list(a) != list(X):
+                        continue
+                    short = True
+                    ok = False
+                    # the edge bb -> ph.bb, or everything that guards bb
+                    edges = set(f.guard_edges(bb))
+                    t = f.blocks[bb].term
+                    if t.op == 'br' and t.a and len(set(t.d['succ'])) == 2:
+                        edges.add((t, ph.bb.id))
+                    for t2, s2 in edges:
+                        if t2.op != 'br' or not t2.a:
+                            continue
+                        c, p, ops = f.cond(t2.a[0])
+                        if c is None or c.op != 'icmp' or len(ops) != 2:
+                            continue
+                        eff = p if t2.d['succ'][0] == s2 else f.INV.get(p, p)
+                        if list(ops[0]) == list(X) and list(ops[1]) == list(D) and eff == 'ult':
+                            ok = True
+                        if list(ops[0]) == list(D) and list(ops[1]) == list(X) and eff == 'ugt':
+                            ok = True
+                    if not ok:
+                        bad = ph
+            if bad is not None:
+                ck.violation(R, fn, 'division digit shortcut', '%s skips the division of a digit step (%s) and keeps the undivided value as the remainder on an edge that is not guarded by the strict test dividend < divisor: when the two are equal the digit is 1, not 0, so the high part of the quotient is lost and the result comes back modulo 2^64 with no overflow reported' % (fn, x.loc()), bad.loc())
+            else:
+                ck.ok(R, where, 'strict shortcut' if short else 'always divided')
+    if n == 0:
+        raise AnalysisBroken('%s: no digit step (X / D with X %% D) found in pixman-matrix.c' % rid)
